@@ -399,4 +399,4 @@ def run(sh):
         sh.record_case(case, nontrivial=nt, labels=labels)
         sh.handle(case, recs, raise_unattributed=True)
 
-    sh.given(cases(), body, sh.budget(400, 8000), tag="stage")
+    sh.given(cases(), body, sh.budget(320, 8000), tag="stage")
